@@ -245,22 +245,23 @@ inductive ReadRes
   | fail (c : Conn) (e : Err) (q : Net)
 deriving Repr, DecidableEq
 
+/-- `rx` still reads the (non-empty) handshake buffer: only its bytes are returned -/
+def readBuf (c : Conn) (max : Nat) (buf : Bytes) (q : Net) : ReadRes :=
+  .data { c with rx := (c.rx.xor P.sxor (buf.take max)).1, rxBuf := some (buf.drop max) }
+    (c.rx.xor P.sxor (buf.take max)).2 q
+
+/-- the buffer is empty or already released: `rx` is (re)wired to the network -/
+def readNet (c : Conn) (max : Nat) (q : Net) : ReadRes :=
+  match Net.read max q with
+  | none => .block { c with rxBuf := none } q
+  | some (chunk, q') =>
+    .data { c with rxBuf := none, rx := (c.rx.xor P.sxor chunk).1 } (c.rx.xor P.sxor chunk).2 q'
+
 /-- the part of `Read` after the magic scan -/
 def readData (c : Conn) (max : Nat) (q : Net) : ReadRes :=
   match c.rxBuf with
-  | some (b :: bs) =>
-    -- `rx` still reads the handshake buffer: only its bytes are returned
-    let buf := b :: bs
-    let (rx, out) := c.rx.xor P.sxor (buf.take max)
-    .data { c with rx := rx, rxBuf := some (buf.drop max) } out q
-  | _ =>
-    -- empty or already released: rewire to the network
-    let c := { c with rxBuf := none }
-    match Net.read max q with
-    | none => .block c q
-    | some (chunk, q') =>
-      let (rx, out) := c.rx.xor P.sxor chunk
-      .data { c with rx := rx } out q'
+  | some (b :: bs) => readBuf P c max (b :: bs) q
+  | _ => readNet P c max q
 
 /-- `obfs3Conn.Read(b)`, `len(b) = max > 0`, on an established connection -/
 def read (c : Conn) (max : Nat) (q : Net) : ReadRes :=
@@ -282,5 +283,51 @@ def readEof (c : Conn) : Conn :=
   match c.rxMagic with
   | some _ => { c with closed := true }
   | none => c
+
+/-! ## histories: arrivals and `Read` calls in any interleaving -/
+
+/-- an event at the receiving side of an established connection -/
+inductive Ev
+  /-- the network delivers a chunk (one future `conn.Read` result, unless larger than the buffer) -/
+  | arrive (ch : Bytes)
+  /-- the user calls `Read` with a buffer of `max` bytes; a call that blocks inside `findPeerMagic`
+  keeps its progress in `rxBuf` and is continued by the next `read` event -/
+  | read (max : Nat)
+deriving Repr, DecidableEq
+
+structure Run where
+  c : Conn
+  q : Net
+  /-- what the `Read` calls returned so far -/
+  outs : List Bytes
+  /-- the first error a `Read` returned -/
+  failed : Option Err
+deriving Repr, DecidableEq
+
+/-- record the result of a `Read` call -/
+def Run.afterRead (s : Run) : ReadRes → Run
+  | .data c o q => { s with c := c, q := q, outs := s.outs ++ [o] }
+  | .block c q => { s with c := c, q := q }
+  | .fail c e q => { s with c := c, q := q, failed := some e }
+
+def stepEv (s : Run) : Ev → Run
+  | .arrive ch => { s with q := s.q.push ch }
+  | .read max =>
+    match s.failed with
+    | some _ => s
+    | none => s.afterRead (read P s.c max s.q)
+
+def runEvs (s : Run) (evs : List Ev) : Run := evs.foldl (stepEv P) s
+
+/-- the bytes that arrive during a history, concatenated -/
+def arrivals : List Ev → Bytes
+  | [] => []
+  | .arrive ch :: r => ch ++ arrivals r
+  | .read _ :: r => arrivals r
+
+/-- a sequence of `Write` calls (`pad` is used by the first): final state and the net writes -/
+def writeAll (c : Conn) (pad : Bytes) : List Bytes → Conn × List Bytes
+  | [] => (c, [])
+  | w :: ws => ((writeAll (write P c w pad).1 pad ws).1, (write P c w pad).2 ++ (writeAll (write P c w pad).1 pad ws).2)
 
 end O4.Obfs3
